@@ -1104,11 +1104,11 @@ func c11ProposeKey(c c11Conf, q c11Req, ho, vo []string, tab *c11Sha) (pinned, r
 }
 
 // forwardedHash of fixes/C11-F6.diff
-func c11FwdHash(names []string, vals []c11KV, tab *c11Sha) string {
+func c11FwdHash(names []string, vals []c11KV, tab *c11Sha, canon func(string) string) string {
 	var sb strings.Builder
 
 	for _, n := range names {
-		v, _ := c11Lookup(vals, n)
+		v, _ := c11Lookup(vals, canon(n))
 		sb.WriteString(n)
 		sb.WriteString(v)
 	}
@@ -1160,8 +1160,8 @@ func c11ProposeKeyL(c c11Conf, q c11Req, ho, vo []string, tab *c11Sha, fx6 bool)
 		pre.WriteString(c11TTLHash(&v))
 
 		if fx6 {
-			pre.WriteString(c11FwdHash(c.FwdH, q.Headers, tab))
-			pre.WriteString(c11FwdHash(c.FwdC, q.Cookies, tab))
+			pre.WriteString(c11FwdHash(c.FwdH, q.Headers, tab, http.CanonicalHeaderKey))
+			pre.WriteString(c11FwdHash(c.FwdC, q.Cookies, tab, c11Ident))
 
 			if c.HasPayload {
 				pre.WriteString(tab.sum(c.Payload.text()))
@@ -1199,8 +1199,8 @@ func c11ProposeKeyL(c c11Conf, q c11Req, ho, vo []string, tab *c11Sha, fx6 bool)
 		}
 
 		if fx6 && c.Kind == "ctx" {
-			pre.WriteString(c11FwdHash(c.FwdH, q.Headers, tab))
-			pre.WriteString(c11FwdHash(c.FwdC, q.Cookies, tab))
+			pre.WriteString(c11FwdHash(c.FwdH, q.Headers, tab, http.CanonicalHeaderKey))
+			pre.WriteString(c11FwdHash(c.FwdC, q.Cookies, tab, c11Ident))
 		}
 	}
 
@@ -1659,9 +1659,9 @@ func (env *c11Env) genProto(r *vf.Rand, kind string) c11Conf {
 		switch x := r.Intn(100); {
 		case x < 62:
 		case x < 86:
-			p.FwdH = []string{"X-F1"}
+			p.FwdH = vf.Pick(r, [][]string{{"X-F1"}, {"X-F1"}, {"x-f1"}, {"X-f1"}})
 		default:
-			p.FwdH = []string{"X-F1", "X-F2"}
+			p.FwdH = vf.Pick(r, [][]string{{"X-F1", "X-F2"}, {"X-F1", "X-F2"}, {"x-f1", "X-F2"}, {"X-f1", "x-F2"}})
 		}
 
 		if r.Chance(26) {
@@ -1670,7 +1670,8 @@ func (env *c11Env) genProto(r *vf.Rand, kind string) c11Conf {
 	}
 
 	if kind == "remote" && r.Chance(45) {
-		p.Up = vf.Pick(r, [][]string{{"X-Up"}, {"X-Up", "X-Up2"}, {"X-Up2", "X-Nope"}})
+		// header names are case-insensitive: canonical, lower and mixed spellings of the configured names
+		p.Up = vf.Pick(r, [][]string{{"X-Up"}, {"x-up"}, {"X-Up", "X-Up2"}, {"X-UP", "x-up2"}, {"X-Up2", "X-Nope"}, {"x-uP2", "X-Nope"}, {"x-Up"}})
 	}
 
 	if templated {
@@ -1937,14 +1938,14 @@ func (env *c11Env) genOver(r *vf.Rand, p c11Conf) (*c11Over, string) {
 			return o, "over:values"
 		}
 
-		o.Up = []string{"X-Up2"}
+		o.Up = vf.Pick(r, [][]string{{"X-Up2"}, {"x-up2"}, {"X-UP2"}})
 
 		return o, "over:up"
 	}
 
 	switch x := r.Intn(100); {
 	case x < 30:
-		o.FwdH = vf.Pick(r, [][]string{{"X-F1"}, {"X-F2"}, {"X-F1", "X-F2"}})
+		o.FwdH = vf.Pick(r, [][]string{{"X-F1"}, {"X-F2"}, {"X-F1", "X-F2"}, {"x-f2"}, {"x-f1", "x-f2"}})
 
 		return o, "over:fwdh"
 	case x < 45:
@@ -2027,18 +2028,22 @@ func c11DelKV(m []c11KV, k string) []c11KV {
 // optional.  "absorb": the second component is ABSENT in one request and the first value ends with its name
 // and the value it has in the other request (equal pre-images only if an absent component is dropped).
 // "shift": both present, name2 moved across the boundary (equal pre-images in the code as it is: C11-F4).
-func c11ShiftOptional(r *vf.Rand, m []c11KV, n1, n2 string, pool []string) (q1, q2 []c11KV, rel string) {
+func c11Ident(s string) string { return s }
+
+// n1, n2: the names as configured (they are what the key derivation writes); the request carries them under canon(name)
+func c11ShiftOptional(r *vf.Rand, m []c11KV, n1, n2 string, pool []string, canon func(string) string) (q1, q2 []c11KV, rel string) {
 	a, b, c := vf.Pick(r, pool), vf.Pick(r, pool), vf.Pick(r, pool)
+	k1, k2 := canon(n1), canon(n2)
 
 	if r.Chance(60) {
-		q1 = c11SetKV(c11SetKV(m, n1, a), n2, b)
-		q2 = c11DelKV(c11SetKV(m, n1, a+n2+b), n2)
+		q1 = c11SetKV(c11SetKV(m, k1, a), k2, b)
+		q2 = c11DelKV(c11SetKV(m, k1, a+n2+b), k2)
 
 		return q1, q2, "absorb"
 	}
 
-	q1 = c11SetKV(c11SetKV(m, n1, a+n2+b), n2, c)
-	q2 = c11SetKV(c11SetKV(m, n1, a), n2, b+n2+c)
+	q1 = c11SetKV(c11SetKV(m, k1, a+n2+b), k2, c)
+	q2 = c11SetKV(c11SetKV(m, k1, a), k2, b+n2+c)
 
 	return q1, q2, "shift"
 }
@@ -2170,13 +2175,13 @@ func (env *c11Env) gen(r *vf.Rand) c11Case {
 			c.Steps = append(c.Steps, c11Step{Inst: from.Inst, Req: q1, Rel: "shift-a"}, c11Step{Inst: from.Inst, Req: q2, Rel: "shift-b"})
 		case x < 70 && (kindOf(from.Inst) == "ctx" || kindOf(from.Inst) == "gen") && len(effOf(from.Inst).FwdH) >= 2:
 			names := effOf(from.Inst).FwdH
-			q1, q2, rel := c11ShiftOptional(r, from.Req.Headers, names[0], names[1], c11HVals)
+			q1, q2, rel := c11ShiftOptional(r, from.Req.Headers, names[0], names[1], c11HVals, http.CanonicalHeaderKey)
 			r1, r2 := from.Req, from.Req
 			r1.Headers, r2.Headers = q1, q2
 			c.Steps = append(c.Steps, c11Step{Inst: from.Inst, Req: r1, Rel: rel + ":fwdh-a"}, c11Step{Inst: from.Inst, Req: r2, Rel: rel + ":fwdh-b"})
 		case x < 76 && (kindOf(from.Inst) == "ctx" || kindOf(from.Inst) == "gen") && len(effOf(from.Inst).FwdC) >= 2:
 			names := effOf(from.Inst).FwdC
-			q1, q2, rel := c11ShiftOptional(r, from.Req.Cookies, names[0], names[1], []string{"c1", "c2", "d22"})
+			q1, q2, rel := c11ShiftOptional(r, from.Req.Cookies, names[0], names[1], []string{"c1", "c2", "d22"}, c11Ident)
 			r1, r2 := from.Req, from.Req
 			r1.Cookies, r2.Cookies = q1, q2
 			c.Steps = append(c.Steps, c11Step{Inst: from.Inst, Req: r1, Rel: rel + ":fwdc-a"}, c11Step{Inst: from.Inst, Req: r2, Rel: rel + ":fwdc-b"})
@@ -2283,6 +2288,9 @@ func (env *c11Env) corpus() []c11Case {
 	plain := c11Conf{Kind: "remote", ID: "ra", TTL: five, HasPayload: true, Payload: c11Tpl{c11Lit("p="), {K: "sub"}},
 		Ep: c11Ep{URL: c11Tpl{c11Lit(base + "/r/authz")}}}
 
+	plainUp := plain
+	plainUp.ID, plainUp.Up = "rau", []string{"x-up", "X-UP2"}
+
 	intro := c11Conf{Kind: "intro", ID: "in", Ep: c11Ep{URL: c11Tpl{c11Lit(base + "/i/introspect")}}}
 
 	shift := c11Conf{Kind: "ctx", ID: "cv", TTL: five,
@@ -2297,6 +2305,9 @@ func (env *c11Env) corpus() []c11Case {
 	qA, qB := req("alice"), req("alice")
 	qA.Outputs = []c11KV{{K: "foo", V: "A"}}
 	qB.Outputs = []c11KV{{K: "foo", V: "B"}}
+
+	fwdLow := fwd
+	fwdLow.ID, fwdLow.FwdH = "cxl", []string{"x-f1", "x-F2"}
 
 	fwd2 := fwd
 	fwd2.ID, fwd2.FwdH = "cx2", []string{"X-F1", "X-F2"}
@@ -2371,6 +2382,15 @@ func (env *c11Env) corpus() []c11Case {
 		{Protos: []c11Conf{intro}, Insts: []c11InstSpec{{Proto: 0}, {Proto: 0, Over: &c11Over{Aud: []string{"web"}}}}, Tok: tok, Deny: []string{}, Rep: -1,
 			Steps: []c11Step{{Inst: 0, Req: req("alice"), Rel: "first"}, {Inst: 1, Req: req("alice"), Rel: "other-instance"},
 				{Inst: 0, Req: req("alice"), Rel: "other-instance"}}},
+		// header names are case-insensitive: a response header configured in lower case is handed on to the upstream
+		// service from a cached response as from a fresh one (A A B A)
+		{Protos: []c11Conf{plainUp}, Insts: []c11InstSpec{{Proto: 0}}, Tok: tok, Deny: []string{}, Rep: -1,
+			Steps: []c11Step{{Inst: 0, Req: req("alice"), Rel: "first"}, {Inst: 0, Req: req("alice"), Rel: "same"},
+				{Inst: 0, Req: req("bobby"), Rel: "diff:sub"}, {Inst: 0, Req: req("alice"), Rel: "revisit"}}},
+		// ... and a request header configured in lower / mixed case is forwarded, and is part of the key with its value
+		{Protos: []c11Conf{fwdLow}, Insts: []c11InstSpec{{Proto: 0}}, Tok: tok, Deny: []string{}, Rep: -1,
+			Steps: []c11Step{{Inst: 0, Req: req("alice", "X-F1", "one", "X-F2", "x"), Rel: "first"}, {Inst: 0, Req: req("alice", "X-F1", "one", "X-F2", "x"), Rel: "same"},
+				{Inst: 0, Req: req("alice", "X-F1", "two", "X-F2", "x"), Rel: "diff:hdr:X-F1"}, {Inst: 0, Req: req("alice", "X-F1", "one", "X-F2", "x"), Rel: "revisit"}}},
 		// C11-F3: rule-level expressions are not evaluated on a hit
 		{Protos: []c11Conf{plain}, Insts: []c11InstSpec{{Proto: 0}, {Proto: 0, Over: &c11Over{Exprs: []c11Expr{{K: "false"}}}}}, Tok: tok, Deny: []string{}, Rep: -1,
 			Steps: []c11Step{{Inst: 0, Req: req("alice"), Rel: "first"}, {Inst: 1, Req: req("alice"), Rel: "other-instance"}}},
